@@ -131,7 +131,7 @@ def run(ctx, P):
 
 
 META = dict(
-    bounds=dict(quick="n = warm-up+4 candles (value-branching indicators +1..3), smallest legal periods; batch calculate() over symbolic candles, and one-by-one appends with T1 gap filling over a stream with a two-bucket gap (fill candles flat, zero volume, neighbours symbolic)",
+    bounds=dict(quick="n = warm-up+4 candles (value-branching indicators +1..3), smallest legal periods; batch calculate() over symbolic candles, and one-by-one appends with T1 gap filling over a stream with a two-bucket gap (fill candles flat, zero volume, neighbours symbolic); ADX also with period 2 / signal period 3 (thorough: 3 / 2)",
                 thorough="n+1, periods 2 and 3, fill variant for every indicator"),
     stubs=["float arithmetic -> exact real arithmetic (IEEE cancellation outside the claim)", "round(x,nd) -> fresh r, |r-x|<=0.5*10^-nd, monotone at -100/0/100", "x/sym forks on sym==0 -> ZeroDivisionError", "sqrt forks on negative -> ValueError", "ADX: mul/div abstracted during path exploration, exact at assertions", "float-error-model obligations (STDEV/BBANDS/STDEVTHRES): every arithmetic result = exact*(1+d), |d|<=2^-52, fresh d per operation; max/min/abs/comparisons exact; a sat answer is only a candidate and is confirmed by replaying its candle pattern under 12 rescalings x 3 tail lengths x with/without a volatile prefix (thorough tier only)"],
     assumptions=["0 < low <= open,close <= high <= 1e6, 0 <= volume <= 1e9 (flat, zero-volume, repeated candles inside)", "non-finite floats can only arise from division by zero (raises) or overflow (excluded by the bounds)"],
